@@ -132,18 +132,19 @@ def handle (j : Json) : Json :=
     match (getArr? j "objs").bind (·.toList.mapM parseObj), (getArr? j "roots").bind (·.toList.mapM parseRoot),
         getStr? j "text" with
     | some objs, some roots, some t =>
-      Json.mkObj (("text", optS (exportModel objs roots)) :: recJ t.toList)
+      Json.mkObj (("text", optS (exportModel objs roots)) :: ("domain", toJson (heapOkB objs && closedB objs roots))
+        :: recJ t.toList)
     | _, _, _ => badOp
   | some "mm" =>
     match (getArr? j "classes").bind (·.toList.mapM parseMCls), getStrList? j "base", getStr? j "renderer",
         getObj? j "linetype", getStr? j "text" with
     | some cs, some base, some r, some lt, some t =>
       let base := base.map String.toList
-      if r = "dot" then Json.mkObj (("text", optS (mmDot cs base)) :: recJ t.toList)
+      if r = "dot" then Json.mkObj (("text", optS (mmDot cs base)) :: ("domain", toJson (cs.all clsOkB)) :: recJ t.toList)
       else if r = "puml" then
         match (if lt.isNull then some none else (asStr? lt).map (some ·.toList)) with
         | some lt =>
-          Json.mkObj [("text", optS (mmPuml cs base lt)),
+          Json.mkObj [("text", optS (mmPuml cs base lt)), ("domain", toJson (cs.all pclsOkB && linetypeOkB lt)),
             ("puml", match pumlRecognise t.toList with
               | some cls => Json.arr (cls.map S).toArray
               | none => Json.null)]
